@@ -103,6 +103,21 @@ def generate(rng, focus, tier="quick"):
         T = d1 - rng.choice([0, 1, 2])
     else:
         T = rng.randrange(d0, d1 + 1)
+    # bias: when the file carries weekend-dated bars, cut on the Friday just before one of them, and let that Friday
+    # be a day without a bar (or with an empty open) for the asset - the weekend bar is then the next thing on file
+    wk = [(sym, r[0]) for sym, a in sorted(market["assets"].items()) for r in a["rows"]
+          if cal.day_weekday(r[0]) > 4 and d0 < r[0] <= d1]
+    if wk and rng.random() < 0.5:
+        sym, wd_ = rng.choice(wk)
+        fri = wd_ - (1 if cal.day_weekday(wd_) == 5 else 2)
+        T = fri
+        rows = market["assets"][sym]["rows"]
+        if rng.random() < 0.7:
+            rows[:] = [r for r in rows if r[0] != fri] or rows
+        else:
+            for r in rows:
+                if r[0] == fri:
+                    r[1] = None
     kind = rng.choice(REWRITES)
     mb = rewrite_future(rng, market, T, kind)
     plan = {"world": NAME, "cfg": cfg, "market": market, "market_b": mb, "T": T, "rewrite": kind}
